@@ -17,20 +17,22 @@ def gen_case(r, force=None):
     files = w["files"]
     for f in files:
         L.tokens_of(f, files)
-        L.layout(r, f, as_string)
+        L.layout(r, f, as_string and f.name != L.BUILTIN_NAME)
     kind = force or r.weighted([("obj", 6), ("match", 4)])
-    f = r.choice(files)
+    f = r.choice(L.loaded_files(w))
     proc = {"kind": kind, "wrap": r.chance(0.5)}
     if kind == "match" and not (f.nums or f.vers):
         kind = proc["kind"] = "obj"
     if kind == "obj":
-        o = r.choice(f.objs)
+        # the root object shares its start offset with its first child: favour it
+        roots = [x for x in f.objs if x["cls"] == "Model"]
+        o = r.choice(roots) if r.chance(0.2) else r.choice(f.objs)
         rule = o["cls"]
         if o["abstract"] and r.chance(0.3):
             rule = "Item"               # processor registered on the abstract rule of the list
         pos = f.off[o["first"]]
         pos_end = f.off[o["last"]] + len(f.toks[o["last"]])
-        proc.update({"rule": rule, "cls_name": o["cls"], "pos": pos, "pos_end": pos_end, "file": None if as_string else f.name})
+        proc.update({"rule": rule, "cls_name": o["cls"], "pos": pos, "pos_end": pos_end, "file": L.file_name_of(w, f)})
         text = f.seen[pos:pos_end]
     else:
         if f.vers and r.chance(0.4):
@@ -39,7 +41,7 @@ def gen_case(r, force=None):
         else:
             m = r.choice(f.nums)
             rule = "Num"
-        proc.update({"rule": rule, "value": m["value"], "pos": f.off[m["tok"]], "file": None if as_string else f.name})
+        proc.update({"rule": rule, "value": m["value"], "pos": f.off[m["tok"]], "file": L.file_name_of(w, f)})
         text = m["value"]
     style = r.weighted([("textx", 7), ("other", 3)])
     proc["style"] = style
@@ -48,7 +50,8 @@ def gen_case(r, force=None):
         proc["cls"] = r.choice(["semantic", "semantic", "base", "syntax"])
     else:
         proc["supplied"] = {}
-    return {"world": w, "proc": proc, "fidx": f.ix, "text": text}
+    # other (returning) processors on every common rule: their calls must not influence the failing one
+    return {"world": w, "proc": proc, "fidx": f.ix, "text": text, "benign": kind == "obj" and r.chance(0.5)}
 
 
 def coq_case(case):
@@ -85,7 +88,7 @@ def oracle(case, o):
     line, col = L.linecol(f.seen, p["pos"])
     s = p["supplied"]
     want = {"line": s.get("line", line), "col": s.get("col", col),
-            "filename": s.get("filename", None if w["string"] else f.name),
+            "filename": s.get("filename", L.file_name_of(w, f)),
             "nchar": s.get("nchar", (p["pos_end"] - p["pos"]) if p["kind"] == "obj" else None)}
     got = {k: o[k] for k in want}
     if got != want:
@@ -100,9 +103,16 @@ def corpus_case(j):
     return {"world": w, "proc": j["proc"], "fidx": [f.name for f in w["files"]].index(j["target_file"]), "text": j["text"]}
 
 
+def payload_of(case):
+    p = L.world_payload(case["world"])
+    p["proc"] = case["proc"]
+    p["benign"] = bool(case.get("benign"))
+    return p
+
+
 def describe(case):
     w = case["world"]
-    return {"string": w["string"], "files": {f.name: f.raw for f in w["files"]}, "proc": case["proc"],
+    return {"string": w["string"], "files": {f.name: f.raw for f in w["files"]}, "proc": case["proc"], "payload": payload_of(case),
             "target_file": w["files"][case["fidx"]].name, "text": case["text"]}
 
 
@@ -112,11 +122,7 @@ def run(chk):
     cases = [corpus_case(j) for _, j in L.corpus_files("C33")]      # corpus first
     cases += [gen_case(chk.rng.split("fixed%d" % i), k) for i, k in enumerate(["obj", "match"] * 3)]
     cases += [gen_case(chk.rng.split(i)) for i in range(n)]
-    payloads = []
-    for c in cases:
-        p = L.world_payload(c["world"])
-        p["proc"] = c["proc"]
-        payloads.append(p)
+    payloads = [payload_of(c) for c in cases]
     chunks = [list(range(len(cases)))[i::core.NPROC] for i in range(core.NPROC)]
     chunks = [c for c in chunks if c]
     outs = core.run_impl_parallel("c33", [{"cases": [payloads[i] for i in ch]} for ch in chunks])
@@ -138,6 +144,8 @@ def run(chk):
         chk.stat("raises %s%s" % ("TextXError" if p["style"] == "textx" else "foreign exception", " via textxerror_wrap" if p["wrap"] else ""))
         if p["supplied"]:
             chk.stat("processor supplies " + "+".join(sorted(p["supplied"])))
+        if c.get("benign"):
+            chk.stat("with returning processors on all other rules")
         if c["fidx"] != 0:
             chk.stat("target inside an imported file")
         L.world_stats(chk, w)
@@ -150,7 +158,7 @@ def run(chk):
         if i % 45 == 3:
             chk.sample({"case": describe(c), "impl": {k: o.get(k) for k in ("status", "cls", "line", "col", "nchar", "filename")}, "model": mv})
     chk.cov["rule"] = ("generated 1-4 file models (from file, single-file also from a string; random layout with CRLF/CR, comments, non-ASCII) with one "
-                       "processor registered on a common rule (Def/Use/Uses/Box/Import/Model), on the abstract rule Item, or on a match rule (Num terminal, "
+                       "processor registered on a common rule (Def/Use/Uses/Rr/Box/Import/Model), on the abstract rule Item, or on a match rule (Num terminal, "
                        "Ver composite) that fails on ONE randomly chosen object/match, raising a TextXError (semantic/syntax/base) with none, some or all of "
                        "line/col/nchar/filename supplied, or a foreign exception; each with and without textxerror_wrap; non-trivial = target not on line 1 and "
                        "the case is inside the statement (not an unwrapped foreign exception); distinct by (file texts, processor spec)")
@@ -166,7 +174,7 @@ def replay(rep):
     c = rep.get("case") or {}
     if "files" not in c:
         return 0
-    payload = {"grammar": L.GRAMMAR, "string": c["string"], "files": [{"name": n, "raw": t} for n, t in c["files"].items()], "proc": c["proc"]}
+    payload = c.get("payload") or {"grammar": L.GRAMMAR, "string": c["string"], "files": [{"name": n, "raw": t} for n, t in c["files"].items()], "proc": c["proc"]}
     out = core.run_impl("c33", {"cases": [payload]})[0]
     print("implementation now:", json.dumps(out, default=str))
     return 0
